@@ -66,8 +66,7 @@ contract(F, 'SynthDef._build', props=('C20',),
                       ('a-failing-phase-is-not-swallowed', raised_iff_phase_failed)],
          ensures=[('all-phases-ran', lambda c: z3.BoolVal(
              [e[1] for e in c.trace if e[0] == 'phase'] ==
-             ['SynthDef._init_build', 'SynthDef._build_ugen_graph', 'SynthDef._finish_build'])),
-                  ('graph-function-kept-after-a-successful-build', func_kept)],
+             ['SynthDef._init_build', 'SynthDef._build_ugen_graph', 'SynthDef._finish_build']))],
          policies={'SynthDef._init_build': phase('SynthDef._init_build'),
                    'SynthDef._build_ugen_graph': phase('SynthDef._build_ugen_graph'),
                    'SynthDef._finish_build': phase('SynthDef._finish_build'),
